@@ -16,7 +16,7 @@ import (
 func init() {
 	register(mc.Property{
 		ID:   "C06",
-		Rule: "one case = (MTU, payloader, abs-send-time off / id 1 / id 14, start configuration of sequencer + random initial timestamp + clock, sequence of Packetize / SkipSamples / GeneratePadding calls); a recording payloader wraps the real one so that the oracle knows the fragments; non-trivial = at least one call returned two or more packets",
+		Rule: "one case = (MTU, payloader, abs-send-time off / id 1 / 14 (one-byte form) / 15 / 255 (two-byte form), start configuration of sequencer + random initial timestamp + clock, sequence of Packetize / SkipSamples / GeneratePadding calls); a recording payloader wraps the real one so that the oracle knows the fragments; non-trivial = at least one call returned two or more packets",
 		Assumptions: []string{
 			"MTU {64,65,100,267,1200,65535}; payloaders G711, G722, Opus, H264, H265, VP8 with picture ids, VP9 flexible, AV1 with inputs shaped for each; start configurations (sequencer start, initial timestamp via the random seam) in {(0,0),(1234,0xFFFFFC40),(65534,0xFFFFFFFF),(65535,0x01020304)}; clock answers through the verif seam from instants around the 64 s wrap of the 24-bit field",
 			"call alphabet: Packetize(len in {1,B-1,B,B+1,2B,3B+5}, samples in {0,1,960,2^32-1}) (B = MTU-12), SkipSamples {0,1,2^31,2^32-1}, GeneratePadding {0,1,2}: all sequences of depth 2 over the full alphabet, depth 3 (thorough 4) over a 12-call sub-alphabet; MTU 1200 and 65535 use lengths {1,B,B+1} and depth 2",
@@ -157,7 +157,7 @@ func c06Run(c *mc.Ctx, depth int, full bool) {
 		return
 	}
 	pi := c.Pick(len(c06Payloaders))
-	absID := mc.From(c, []int{0, 1, 14})
+	absID := mc.From(c, []int{0, 1, 14, 15, 255})
 	start := mc.From(c, c06Starts)
 	alphabet := c06Alphabet(full, big)
 	ops := make([]c06Op, depth)
